@@ -472,7 +472,7 @@ CHECKS["C11"] = dict(
         dict(name="backendreply", test="TestBackendReplies", kind="rapid", checks={"quick": 300, "thorough": 10000}, shards=8, timeout={"quick": 900, "thorough": 3400}, crash_is_violation=True),
         dict(name="decompress", test="TestDecompressReplies", kind="rapid", checks={"quick": 1500, "thorough": 60000}, shards=8, timeout={"quick": 900, "thorough": 3400}, crash_is_violation=True),
         dict(name="scanreply", test="TestScanReplies", kind="rapid", checks={"quick": 5000, "thorough": 200000}, shards=2, timeout={"quick": 900, "thorough": 3400}, crash_is_violation=True),
-        dict(name="requestvalue", test="TestRequestValues", kind="rapid", checks={"quick": 3000, "thorough": 100000}, shards=4, timeout={"quick": 900, "thorough": 3400}, crash_is_violation=True),
+        dict(name="requestvalue", test="TestRequestValues", kind="rapid", checks={"quick": 50000, "thorough": 1000000}, shards=4, timeout={"quick": 900, "thorough": 3400}, crash_is_violation=True),
         dict(name="clusternodes-socket", test="TestHostileClusterNodes", kind="rapid", checks={"quick": 20, "thorough": 800}, shards=16, timeout={"quick": 900, "thorough": 3400}, gomaxprocs=4, crash_is_violation=True),
         dict(name="fuzz-decoder", test="FuzzDecoder", kind="fuzz", fuzz_part="decoder", tiers=["thorough"], fuzztime="150s", timeout=400, exclusive=True),
         dict(name="fuzz-clusternodes", test="FuzzClusterNodes", kind="fuzz", fuzz_part="clusternodes", tiers=["thorough"], fuzztime="120s", timeout=400, exclusive=True),
